@@ -463,11 +463,85 @@ def rule_m5(chk: Check, mach) -> None:
     chk.floor("M5", "reject paths in chain callbacks", n, 1)
 
 
+def _cut(expr: ast.AST, fn: ast.AST, depth: int = 0):
+    """Canonical description of how a string is cut out of another one.
+    `X.split(S, 1)[0]`, `X.split(S)[0]`, `X.partition(S)[0]` and the first
+    target of `a, b = X.split(S, 1)` are all ("before-first", X, S); a constant
+    prefix glued onto a tail slice (scheme swap) is transparent."""
+    if depth > 6:
+        return ("opaque", norm(expr))
+    if isinstance(expr, ast.Name):
+        defs_ = []
+        for st in walk(fn):
+            if isinstance(st, ast.Assign):
+                for t in st.targets:
+                    if isinstance(t, ast.Name) and t.id == expr.id:
+                        defs_.append(("plain", st.value))
+                    elif isinstance(t, (ast.Tuple, ast.List)):
+                        for i, e in enumerate(t.elts):
+                            if isinstance(e, ast.Name) and e.id == expr.id:
+                                defs_.append((i, st.value))
+        if len(defs_) != 1:
+            return ("name", expr.id)
+        sel, val = defs_[0]
+        if sel == "plain":
+            return _cut(val, fn, depth + 1)
+        mc = method_call(val) if isinstance(val, ast.Call) else None
+        if sel == 0 and mc and mc[1] in ("split", "partition") and val.args and isinstance(val.args[0], ast.Constant):
+            if mc[1] == "partition" or (len(val.args) == 2 and isinstance(val.args[1], ast.Constant) and val.args[1].value == 1):
+                return ("before-first", _cut(mc[0], fn, depth + 1), val.args[0].value)
+        return ("opaque", f"{norm(val)}[{sel}]")
+    if isinstance(expr, ast.Subscript) and isinstance(expr.slice, ast.Constant) and expr.slice.value == 0 and isinstance(expr.value, ast.Call):
+        mc = method_call(expr.value)
+        if mc and mc[1] in ("split", "partition") and expr.value.args and isinstance(expr.value.args[0], ast.Constant):
+            return ("before-first", _cut(mc[0], fn, depth + 1), expr.value.args[0].value)
+    if isinstance(expr, ast.BinOp) and isinstance(expr.op, ast.Add) and isinstance(expr.left, ast.Constant) and isinstance(expr.right, ast.Subscript) and isinstance(expr.right.slice, ast.Slice) and expr.right.slice.upper is None:
+        return _cut(expr.right.value, fn, depth + 1)  # "gemini://" + url_part[8:]
+    return ("opaque", norm(expr))
+
+
+def rule_m3_cut(chk: Check) -> None:
+    """The URL the chain is consulted with (parsed_url.normalized) and the
+    components the handler acts on (parsed_url.path, from parse_url(...)) must be
+    cut out of the request line the same way, wherever a request class assembles
+    its ParsedURL by hand."""
+    n = 0
+    for ci in chk.proj.module("protocol.request").classes.values():
+        fi = ci.methods.get("from_line")
+        if fi is None:
+            continue
+        for c in calls(fi.node):
+            if (dotted(c.func) or "").split(".")[-1] != "ParsedURL":
+                continue
+            nv, pv = kwarg(c, "normalized"), kwarg(c, "path")
+            if nv is None or pv is None:
+                continue
+            n += 1
+            # path=<parsed>.path  with  <parsed> = parse_url(G)
+            src = None
+            if isinstance(pv, ast.Attribute) and isinstance(pv.value, ast.Name):
+                for st in walk(fi.node):
+                    if isinstance(st, ast.Assign) and any(isinstance(t, ast.Name) and t.id == pv.value.id for t in st.targets) and isinstance(st.value, ast.Call) and (dotted(st.value.func) or "").split(".")[-1] == "parse_url" and st.value.args:
+                        src = st.value.args[0]
+            a = _cut(nv, fi.node)
+            b = _cut(src, fi.node) if src is not None else ("opaque", norm(pv))
+            ok = a == b and a[0] != "opaque"
+            if not ok:
+                chk.finding(
+                    "M3", fi.key, "consult-url-cut",
+                    f"the URL the middleware chain is consulted with is cut from the request line as {a}, the path the handler acts on as {b}: for a line on which the two cuts differ (e.g. a `;` inside the path) the chain decides about one location and the handler acts on another",
+                    fi.loc(c),
+                )
+            chk.ob("M3", f"{fi.key}: consulted URL and handler path are the same cut of the request line", ok, f"{a}")
+    chk.ob("M3", "hand-assembled ParsedURL sites examined", True, f"{n} sites", nontrivial=False)
+
+
 def run(chk: Check) -> None:
     mach = rule_m1(chk)
     rule_m1b(chk, mach)
     rule_m2(chk)
     rule_m3(chk, mach)
+    rule_m3_cut(chk)
     rule_m4(chk)
     rule_m5(chk, mach)
     chk.trusted = ["CPython ast parser", "engine CFG / inliner / path pruning", "asyncio runs done-callbacks after the task finished"]
